@@ -19,7 +19,7 @@ Extraction "model.ml"
   parse_duration atoi trim_space parse_rate parse_rate_pinned parse_stages calc_constant calc_ramp calc_staged calc_gaussian parse_config config_jitter_ok c15_run_ok c15_trigger_ok
   render_progress render_result render_exit render_stage log_progress log_result read_progress duration_string fmt_f2
   gauss_run gauss_ok carry_run weight_index
-  runner_trace_ok runner_times_ok rexec rinit
+  runner_trace_ok runner_times_ok runner_timed_ok rexec rinit
   c02_ok c03_ok c04_ok pexec pinit pterminal
   c09_ok worker_actions
   c05_ok lexec linit wedged.
